@@ -146,8 +146,10 @@ def run(eng, rep, tier):
         label = prog.classes[recv_q].name
         res = result_locs(s)
         adds = [ev for ev, _ in calls(s, "add_transition", own=True, recv_locs=res)]
-        distinguishes = any(EPS_TAG in ev.ctrl or any("psilon" in fct[0] for fct in ev.facts) for ev in adds)
-        has_empty = any(len(ev.args) > 3 and ev.args[3].elem is None for ev in adds)
+        distinguishes = any(EPS_TAG in ev.ctrl or EPS_TAG in arg_deps(ev, 3) or any("psilon" in fct[0] for fct in ev.facts)
+                            for ev in adds)
+        has_empty = any(len(ev.args) > 3 and ev.args[3].elem is None for ev in adds) or \
+            any(isinstance(c, ast.List) and not c.elts for c in ast.walk(f.node))
         if recv_q == ENFA:
             ob.decide("R1", "C16.4", f, "epsilon-edge-output", distinguishes and has_empty,
                       "epsilon edges of the automaton become epsilon moves with empty output",
